@@ -1,6 +1,6 @@
 """Re-run the target property's check against every stored seeded change (regression of the detection table).
 
-usage: python3-vt lib/seedregress.py [--round 1|2|3|4|5|all] [--only C03,C09] [--jobs 3] [--out FILE]
+usage: python3-vt lib/seedregress.py [--round 1|2|3|4|5|6|all] [--only C03,C09] [--jobs 3] [--out FILE]
 Each seed: scratch worktree of /repo HEAD under /tmp, git apply seeded/<name>/patch.diff, VERIF_REPO=<wt> ./check <ID> --tier quick,
 worktree removed.  Nothing under seeded/ is modified."""
 import concurrent.futures as cf
@@ -45,7 +45,7 @@ def main():
     names = sorted(p.name for p in (ROOT / "seeded").iterdir() if (p / "patch.diff").is_file())
     if rnd == "1":
         names = [n for n in names if "-r" not in n]
-    elif rnd in ("2", "3", "4", "5"):
+    elif rnd in ("2", "3", "4", "5", "6"):
         names = [n for n in names if f"-r{rnd}-" in n]
     if only:
         names = [n for n in names if n[:3] in only]
